@@ -114,6 +114,23 @@ def minimise(res, violation, timeout=120.0):
     stats["tests"] += t
     ops, t = ddmin(spec, ops, cfg, sig, timeout, max_tests=100)
     stats["tests"] += t
+    if res["prop"] == "C11":
+        # drop registry edits one at a time
+        while True:
+            cands = []
+            for i, o in enumerate(ops):
+                if o.get("k") == "reg" and o.get("edits"):
+                    for j in range(len(o["edits"])):
+                        c = [dict(x) for x in ops]
+                        c[i]["edits"] = o["edits"][:j] + o["edits"][j + 1:]
+                        cands.append(c)
+            if not cands:
+                break
+            stats["tests"] += len(cands)
+            j = _first_failing(spec, cands, cfg, sig, timeout)
+            if j is None:
+                break
+            ops = cands[j]
     if res["prop"] == "C18":
         from . import c18sim
 
